@@ -192,6 +192,12 @@ func RunAll(r *vk.Run, scenarios []Scenario, budget time.Duration) {
 	if strings.HasPrefix(r.Worker, "shard:") {
 		var i, n int
 		fmt.Sscanf(r.Worker, "shard:%d/%d", &i, &n)
+		// the library prints to os.Stdout when a client is built with debug = true: keep the
+		// result channel of this worker (the real stdout) apart from it
+		result := os.Stdout
+		if devnull, err := os.OpenFile(os.DevNull, os.O_WRONLY, 0); err == nil {
+			os.Stdout = devnull
+		}
 		out := workerOut{Outcomes: map[string]int64{}}
 		var deadline time.Time
 		if budget > 0 {
@@ -214,7 +220,7 @@ func RunAll(r *vk.Run, scenarios []Scenario, budget time.Duration) {
 			}
 		}
 		b, _ := json.Marshal(out)
-		os.Stdout.Write(b)
+		result.Write(b)
 		os.Exit(0)
 	}
 
